@@ -25,7 +25,7 @@ input Obj { x: Int y: [Int] z: Obj }
 directive @dir(i: Int, d: Int = 7, l: [Int], o: Obj, a: Any, e: E = RED, fl: Float, id: ID, fls: [Float]) on FIELD
 type Query {
   f(i: Int, d: Int = 7, l: [Int], o: Obj, a: Any, e: E = RED, fl: Float, id: ID, fls: [Float]): Int
-  g(u1: Int, u2: Int): Int
+  g(u1: Int, u2: Int, u3: Int): Int
 }
 `
 
@@ -104,7 +104,7 @@ func argMapOf(f func() map[string]interface{}) (m map[string]interface{}, crash 
 }
 
 func checkC15(c *core.Ctx) {
-	c.Rule = "cases are the rows of the decision table enumerated by TLC in ArgMap_MC: variables $p: Int and $q: Int = 3 each absent / null / supplied, crossed with one argument of f(i, d = 7, l, o, a: Any, e = RED) written as nothing, a literal (lists and input objects with nested variables, custom-scalar literals of every kind) or a variable; each row is rendered as (schema, document, variables), validated, coerced, and both Field.ArgumentMap and Directive.ArgumentMap are compared entry by entry with the map the specification prints. Non-trivial = rows where the argument is written; distinct by (argument, usage, supplied variables)"
+	c.Rule = "cases are the rows of the decision table enumerated by TLC in ArgMap_MC: variables $p: Int, $q: Int = 3 and $n: Int = null each absent / null / supplied, crossed with one argument of f(i, d = 7, l, o, a: Any, e = RED) written as nothing, a literal (lists and input objects with nested variables, custom-scalar literals of every kind) or a variable; each row is rendered as (schema, document, variables), validated, coerced, and both Field.ArgumentMap and Directive.ArgumentMap are compared entry by entry with the map the specification prints. Non-trivial = rows where the argument is written; distinct by (argument, usage, supplied variables)"
 	c.Assumptions = []string{
 		"ArgMap.tla: an absent variable nested in a literal contributes null (the statement says variables inside literals are substituted; it does not ask for omission of the entry)",
 		"literal conversion kinds: Int -> integer, Float -> float, String/Enum -> string, Boolean -> bool, null -> nil",
@@ -164,7 +164,7 @@ func checkC15(c *core.Ctx) {
 			argText = "(" + ac.Arg + ": " + argLiteral(ac.Use[0]) + ")"
 			nontrivial++
 		}
-		q := "query($p: Int, $q: Int = 3) { f" + argText + " @dir" + argText + " g(u1: $p, u2: $q) }"
+		q := "query($p: Int, $q: Int = 3, $n: Int = null) { f" + argText + " @dir" + argText + " g(u1: $p, u2: $q, u3: $n) }"
 		big := len(ac.Use) > 0 && (hasKind(ac.Use[0], "bigint") || hasKind(ac.Use[0], "bigfloat"))
 		doc, errs := gqlparser.LoadQuery(schema, q)
 		if len(errs) > 0 {
